@@ -28,6 +28,12 @@ func c09Quantize(x Operand, e int32, cc CtxCase) (cls string, trivial bool, msg 
 		return "Quantize/error", false, fmt.Sprintf("unexpected error %q with empty trap set", err)
 	}
 	got := ToVal(&d)
+	if abs(int(e)) > ref.Limit && got.Form == ref.NaN && int(res)&ref.InvalidOperation != 0 {
+		// the requested exponent itself is beyond the package's exponent limits
+		// (reachable as Etiny of a context with MinExponent -100000): no Decimal
+		// may carry it, so NaN+InvalidOperation is the system-limit outcome
+		return "Quantize/syslimit", false, ""
+	}
 	switch {
 	case invalid:
 		cls = "Quantize/invalid"
@@ -285,6 +291,41 @@ func c09Run(e *core.Env) {
 		for _, op := range []string{"Ceil", "Floor"} {
 			cls, triv, msg := c09CeilFloor(op, x, p0)
 			report(op, x, nil, p0, cls, triv, msg)
+		}
+	}
+	// FAR family: operands whose exponent lies up to 200000 below (or above) the target exponent
+	// while both are legal on their own - every digit is discarded across more than the package
+	// exponent span ("values far below one unit of 10^e")
+	var far []Operand
+	for _, c := range []int64{0, 1, 5, 7, 123, 999} {
+		for _, ex := range []int32{-100000, -99999, -99000, -60000, -50001, 50001, 99000} {
+			far = append(far, Fin(c, ex, false), Fin(c, ex, true))
+		}
+	}
+	var fctx []CtxCase
+	for _, p := range []uint32{1, 3, 9} {
+		for _, m := range Modes8 {
+			fctx = append(fctx, MkCtx(p, -100000, 100000, m, 0))
+		}
+	}
+	for ix := range far {
+		if !e.Mine(int64(ix)) {
+			continue
+		}
+		x := far[ix]
+		e.State()
+		for _, cc := range fctx {
+			for _, q := range []int32{-100000, -50000, 0, 1, 2, 49999, 50000, 99999, 100000} {
+				q := q
+				cls, triv, msg := c09Quantize(x, q, cc)
+				report("Quantize", x, &q, cc, cls+"-far", triv, msg)
+			}
+			if x.V.Exp < 0 {
+				for _, op := range []string{"RoundToIntegralValue", "RoundToIntegralExact"} {
+					cls, triv, msg := c09ToIntegral(op, x, cc)
+					report(op, x, nil, cc, cls+"-far", triv, msg)
+				}
+			}
 		}
 	}
 }
